@@ -6,9 +6,14 @@ about what could DIFFER between two runs of the real program.  Here every such s
 
   * `ρ.uuid k`   the k-th unseeded identifier the process draws (uuid4 string, secrets-generated MAC / token),
   * `ρ.stamp k`  the k-th reading of the wall clock,
-  * `ρ.perm k l` the order in which the k-th iteration of a hash-ordered set hands out the set's elements `l`.
+  * `ρ.perm k l` the order in which the k-th iteration of a hash-ordered set hands out the set's elements `l`,
+  * `ρ.entropy k` the k-th value delivered by a generator that NOBODY seeded (OS entropy: gymnasium's per-space generator,
+    `np.random.default_rng()` without an argument, a global generator that `set_random_seed` forgot).
 
-The seeded random stream is NOT part of `ρ`: it is a function (`gen`) of the seed.
+The seeded random streams are NOT part of `ρ`: per generator FAMILY (`Fam`: python `random`, numpy's global generator,
+torch, …) the stream is a function (`Fixed.next`, `Fixed.seed`) of the seed.  Which families the code seeds is a parameter
+(`Fixed.seeds`, tied to the call list of `set_random_seed` by `Gen/NondetSeeding.lean`): a draw from a family that is not
+seeded reads `ρ.entropy`.
 
 The simulator is an arbitrary *program* (`Prog`) over an interface that offers exactly what the code is allowed to do with
 those values (this is the modelling assumption that the nondeterminism inventory `Gen/Nondet.lean` ties to the source):
@@ -19,7 +24,11 @@ those values (this is the modelling assumption that the nondeterminism inventory
     LENGTH of the stamp's ISO text (`frameSize`);
   * a set can only be iterated through a *consumer* `c : List Nat → List Nat` (the loop that eats the elements); the
     interpreter feeds it `ρ.perm k l`;
-  * `rand n` draws from the seeded generator.
+  * `rand f n` draws from the generator family `f` (seeded stream if the code seeds `f`, otherwise `ρ.entropy`).
+
+The last section models the SEEDING PATH AS WRITTEN (`set_random_seed`, and the test `PrimaiteGymEnv.reset` applies to its
+`seed` argument before calling it) as data (`SeedShape`), so that `reset(seed=0)` and `reset()` are different operations
+and a truthiness test on the seed is expressible (and refutable).
 
 Core Lean only.
 -/
@@ -27,10 +36,17 @@ namespace Primaite.Noninterf
 
 /-! ## the opaque environment -/
 
+/-- Generator families. `space` = the generator gymnasium creates lazily inside every `Space` (seeded from OS entropy
+unless `space.seed()` is called). -/
+inductive Fam where
+  | py | np | torch | space
+  deriving DecidableEq, Repr
+
 structure Rho (ι : Type) where
   uuid : Nat → ι
   stamp : Nat → Nat
   perm : Nat → List Nat → List Nat
+  entropy : Nat → Nat := fun _ => 0
 
 /-- What CPython / the OS guarantee about `ρ` (trusted, not proved): fresh identifiers are pairwise distinct, and
 iterating a set yields each element exactly once. -/
@@ -38,10 +54,12 @@ structure Rho.Valid {ι : Type} (ρ : Rho ι) : Prop where
   inj : ∀ i j, ρ.uuid i = ρ.uuid j → i = j
   isPerm : ∀ k l, (ρ.perm k l).Perm l
 
-/-- The part of `ρ` a process sees after it has already consumed `a` identifiers, `b` clock readings and `c` set
-iterations (used at `reset`: the new game is built from the configuration, nothing of the old one is reachable). -/
-def Rho.shift {ι : Type} (ρ : Rho ι) (a b c : Nat) : Rho ι :=
-  { uuid := fun k => ρ.uuid (a + k), stamp := fun k => ρ.stamp (b + k), perm := fun k => ρ.perm (c + k) }
+/-- The part of `ρ` a process sees after it has already consumed `a` identifiers, `b` clock readings, `c` set
+iterations and `d` unseeded draws (used at `reset`: the new game is built from the configuration, nothing of the old one
+is reachable). -/
+def Rho.shift {ι : Type} (ρ : Rho ι) (a b c d : Nat) : Rho ι :=
+  { uuid := fun k => ρ.uuid (a + k), stamp := fun k => ρ.stamp (b + k), perm := fun k => ρ.perm (c + k),
+    entropy := fun k => ρ.entropy (d + k) }
 
 /-- Length of the text `datetime.isoformat()` puts into the JSON of a frame: 19 characters, plus `.ffffff` unless the
 microsecond field is zero (`stamp` is in microseconds). -/
@@ -49,6 +67,9 @@ def isoTextLen (t : Nat) : Nat := if t % 1000000 = 0 then 19 else 26
 
 /-- Length of the decimal text of a number (the ICMP identifier `secrets.randbits(16)` inside the JSON of a frame). -/
 def decimalLen (n : Nat) : Nat := (Nat.repr n).length
+
+/-- Length of `secrets.token_urlsafe(n)`: unpadded base64 of `n` bytes — the same for every value drawn. -/
+def tokenUrlsafeLen (n : Nat) : Nat := (4 * n + 2) / 3
 
 /-! ## programs -/
 
@@ -65,8 +86,8 @@ inductive Prog (α : Type) : Type where
   | frameSize : Nat → List Nat → (Nat → Prog α) → Prog α
   /-- iteration of a hash-ordered set with elements `l` by the consumer `c` -/
   | iterSet : (List Nat → List Nat) → List Nat → (List Nat → Prog α) → Prog α
-  /-- a draw `< n` from the seeded generator -/
-  | rand : Nat → (Nat → Prog α) → Prog α
+  /-- a draw `≤ n` from the generator family `f` -/
+  | rand : Fam → Nat → (Nat → Prog α) → Prog α
 
 def Prog.bind {α β : Type} : Prog α → (α → Prog β) → Prog β
   | .ret a, f => f a
@@ -75,27 +96,33 @@ def Prog.bind {α β : Type} : Prog α → (α → Prog β) → Prog β
   | .now k, f => .now fun h => (k h).bind f
   | .frameSize b hs k, f => .frameSize b hs fun n => (k n).bind f
   | .iterSet c l k, f => .iterSet c l fun r => (k r).bind f
-  | .rand n k, f => .rand n fun r => (k r).bind f
+  | .rand fam n k, f => .rand fam n fun r => (k r).bind f
 
 instance : Monad Prog where
   pure := Prog.ret
   bind := Prog.bind
 
-/-- What the interpreter threads: how much of `ρ` has been consumed, and the state of the seeded generator. -/
+/-- What the interpreter threads: how much of `ρ` has been consumed, and the state of each seeded generator family
+(the slot of a family the code does not seed is never read: its draws come from `ρ.entropy`). -/
 structure World where
   nid : Nat := 0
   nst : Nat := 0
   nperm : Nat := 0
-  rng : Nat := 0
-  deriving DecidableEq, Repr
+  nent : Nat := 0
+  rng : Fam → Nat := fun _ => 0
+
+/-- advance the generator of family `f` by one draw -/
+def World.draw (w : World) (f : Fam) (s : Nat) : World := { w with rng := fun x => if x = f then s else w.rng x }
 
 /-- What is the same in every run: the seeded generator (`next` = one draw: Mersenne Twister / PCG64 in reality, any
 function here; `seed` = `random.seed`/`np.random.seed`) and the function giving the length of the text of an unseeded
 reading inside a frame's JSON (`isoTextLen` for clock readings, `decimalLen` for ICMP identifiers). -/
 structure Fixed where
-  next : Nat → Nat × Nat
-  seed : Nat → Nat
+  next : Fam → Nat → Nat × Nat
+  seed : Fam → Nat → Nat
   textLen : Nat → Nat
+  /-- the families `set_random_seed` seeds (`random.seed`, `np.random.seed`, `th.manual_seed`) -/
+  seeds : Fam → Bool := fun f => f != .space
 
 def interp {ι : Type} [DecidableEq ι] (g : Fixed) (ρ : Rho ι) {α : Type} : Prog α → World → α × World
   | .ret a, w => (a, w)
@@ -104,22 +131,25 @@ def interp {ι : Type} [DecidableEq ι] (g : Fixed) (ρ : Rho ι) {α : Type} : 
   | .now k, w => interp g ρ (k w.nst) { w with nst := w.nst + 1 }
   | .frameSize base hs k, w => interp g ρ (k (base + (hs.map fun h => g.textLen (ρ.stamp h)).sum)) w
   | .iterSet c l k, w => interp g ρ (k (c (ρ.perm w.nperm l))) { w with nperm := w.nperm + 1 }
-  | .rand n k, w => interp g ρ (k ((g.next w.rng).1 % (n + 1))) { w with rng := (g.next w.rng).2 }
+  | .rand f n k, w =>
+    if g.seeds f then interp g ρ (k ((g.next f (w.rng f)).1 % (n + 1))) (w.draw f (g.next f (w.rng f)).2)
+    else interp g ρ (k (ρ.entropy w.nent % (n + 1))) { w with nent := w.nent + 1 }
 
 /-- A consumer is permutation-invariant. -/
 def Invariant (c : List Nat → List Nat) : Prop := ∀ l l', l.Perm l' → c l = c l'
 
-/-- `p.Safe P`: every set iteration in `p` goes through a permutation-invariant consumer, and every frame size is
-computed either from no unseeded reading at all, or under the side condition `P` (which the theorems instantiate with
-"all readings of both runs have texts of the same length"; `P := False` describes a repaired `Frame.size`). -/
-def Prog.Safe {α : Type} (P : Prop) : Prog α → Prop
+/-- `p.Safe S P`: every set iteration in `p` goes through a permutation-invariant consumer, every random draw is from a
+generator family that the code seeds (`S f = true`), and every frame size is computed either from no unseeded reading at
+all, or under the side condition `P` (which the theorems instantiate with "all readings of both runs have texts of the
+same length"; `P := False` describes a repaired `Frame.size`). -/
+def Prog.Safe {α : Type} (S : Fam → Bool) (P : Prop) : Prog α → Prop
   | .ret _ => True
-  | .fresh k => ∀ h, (k h).Safe P
-  | .idEq _ _ k => ∀ r, (k r).Safe P
-  | .now k => ∀ h, (k h).Safe P
-  | .frameSize _ hs k => (hs = [] ∨ P) ∧ ∀ n, (k n).Safe P
-  | .iterSet c _ k => Invariant c ∧ ∀ r, (k r).Safe P
-  | .rand _ k => ∀ r, (k r).Safe P
+  | .fresh k => ∀ h, (k h).Safe S P
+  | .idEq _ _ k => ∀ r, (k r).Safe S P
+  | .now k => ∀ h, (k h).Safe S P
+  | .frameSize _ hs k => (hs = [] ∨ P) ∧ ∀ n, (k n).Safe S P
+  | .iterSet c _ k => Invariant c ∧ ∀ r, (k r).Safe S P
+  | .rand f _ k => S f = true ∧ ∀ r, (k r).Safe S P
 
 /-- All unseeded readings of the two runs have texts of the same length (the hypothesis that excludes F-9; e.g. no
 clock reading with a zero microsecond field in either run). -/
@@ -160,7 +190,10 @@ structure Sim (Cfg σ Act : Type) where
 
 inductive Op (Act : Type) where
   | step : Act → Op Act
-  | reset : Option Nat → Op Act   -- `env.reset(seed=…)`
+  | reset : Option Nat → Op Act   -- `env.reset(seed=…)`: `some s` = the generators are re-seeded with `s`, `none` = left alone
+  /-- somebody else in the process (another environment instance, the training loop) takes one draw from a global
+  generator between two calls of the environment -/
+  | foreign : Fam → Op Act
 
 /-- State of the process. Identifier handles are numbered per game: at a reset the new game is numbered from 0 again
 and sees the not-yet-consumed part of `ρ` (`base*` remember how much earlier games consumed). -/
@@ -171,17 +204,23 @@ structure Proc (σ : Type) where
   baseId : Nat := 0
   baseSt : Nat := 0
   basePerm : Nat := 0
+  baseEnt : Nat := 0
 
-def Proc.rho {ι σ : Type} (p : Proc σ) (ρ : Rho ι) : Rho ι := ρ.shift p.baseId p.baseSt p.basePerm
+def Proc.rho {ι σ : Type} (p : Proc σ) (ρ : Rho ι) : Rho ι := ρ.shift p.baseId p.baseSt p.basePerm p.baseEnt
 
 /-- At a reset the process forgets the old game: the new one is numbered from 0 and sees the unconsumed rest of `ρ`. -/
 def Proc.rebase {σ : Type} (p : Proc σ) : Proc σ :=
-  { p with baseId := p.baseId + p.w.nid, baseSt := p.baseSt + p.w.nst, basePerm := p.basePerm + p.w.nperm }
+  { p with baseId := p.baseId + p.w.nid, baseSt := p.baseSt + p.w.nst, basePerm := p.basePerm + p.w.nperm,
+           baseEnt := p.baseEnt + p.w.nent }
+
+/-- `set_random_seed(s)`: every family is put into the state its seeding function gives for `s` (the slot of a family
+the code does not seed is never read, see `interp`). -/
+def seedAll (g : Fixed) (s : Nat) : Fam → Nat := fun f => g.seed f s
 
 /-- `reset(seed=s)` re-seeds the generators; `reset()` leaves them where the previous episode left them. -/
-def resetRng (g : Fixed) (seed : Option Nat) (w : World) : Nat :=
+def resetRng (g : Fixed) (seed : Option Nat) (w : World) : Fam → Nat :=
   match seed with
-  | some s => g.seed s
+  | some s => seedAll g s
   | none => w.rng
 
 /-- `env.step(a)`. Returns the new process state and the RAW output (identifiers as the real `ι` values). -/
@@ -196,10 +235,15 @@ def doReset {ι Cfg σ Act : Type} [DecidableEq ι] (g : Fixed) (ρ : Rho ι) (s
   let r := interp g (p.rebase.rho ρ) (sim.rebuild (sched (p.episode + 1))) { rng := resetRng g seed p.w }
   ({ p.rebase with episode := p.episode + 1, st := r.1.1, w := r.2 }, r.1.2.map (Tok.map (p.rebase.rho ρ).uuid))
 
+/-- a foreign draw: the family's generator moves on, nothing is output -/
+def doForeign {σ : Type} (g : Fixed) (p : Proc σ) (f : Fam) : Proc σ :=
+  { p with w := p.w.draw f (g.next f (p.w.rng f)).2 }
+
 def opStep {ι Cfg σ Act : Type} [DecidableEq ι] (g : Fixed) (ρ : Rho ι) (sim : Sim Cfg σ Act) (sched : Nat → Cfg)
     (p : Proc σ) : Op Act → Proc σ × List (Tok ι)
   | .step a => doStep g ρ sim p a
   | .reset seed => doReset g ρ sim sched p seed
+  | .foreign f => (doForeign g p f, [])
 
 def runOps {ι Cfg σ Act : Type} [DecidableEq ι] (g : Fixed) (ρ : Rho ι) (sim : Sim Cfg σ Act) (sched : Nat → Cfg)
     : Proc σ → List (Op Act) → List (List (Tok ι))
@@ -211,13 +255,107 @@ def runOps {ι Cfg σ Act : Type} [DecidableEq ι] (g : Fixed) (ρ : Rho ι) (si
 /-- `PrimaiteGymEnv(cfg)` with the configured seed. -/
 def start {ι Cfg σ Act : Type} [DecidableEq ι] (g : Fixed) (ρ : Rho ι) (sim : Sim Cfg σ Act) (sched : Nat → Cfg)
     (seed : Nat) : Proc σ :=
-  let r := interp g ρ (sim.construct (sched 0)) { rng := g.seed seed }
+  let r := interp g ρ (sim.construct (sched 0)) { rng := seedAll g seed }
   { episode := 0, st := r.1, w := r.2 }
 
 /-- The whole run: construct, then play the operations; the trajectory with identifiers canonicalised. -/
 def run {ι Cfg σ Act : Type} [DecidableEq ι] (g : Fixed) (sim : Sim Cfg σ Act) (sched : Nat → Cfg) (seed : Nat)
     (ops : List (Op Act)) (ρ : Rho ι) : List (List (Tok Nat)) :=
   canonRun [] (runOps g ρ sim sched (start g ρ sim sched seed) ops)
+
+/-! ## the seeding path as written (`session/environment.py`)
+
+`set_random_seed(seed, generate_seed_value)` and the test `PrimaiteGymEnv.reset` applies to its `seed` argument are DATA
+here (`SeedShape`, regenerated from the source as `Gen/NondetSeeding.lean`); `SeedShape.resetAct` says what a call
+`env.reset(seed=x)` does to the generators for every `x : Option Int` (`None`, `0`, `-1`, negative, positive). -/
+
+/-- a test on the `seed` argument -/
+inductive SeedTest where
+  | isNone | isNotNone
+  | truthy | falsy          -- `if seed:` / `if not seed:` (Python truthiness: `None` and `0` are false)
+  | eqInt (n : Int) | ltInt (n : Int)
+  deriving DecidableEq, Repr
+
+def SeedTest.eval : SeedTest → Option Int → Bool
+  | .isNone, s => s.isNone
+  | .isNotNone, s => s.isSome
+  | .truthy, some n => n != 0
+  | .truthy, none => false
+  | .falsy, some n => n == 0
+  | .falsy, none => true
+  | .eqInt k, some n => n == k
+  | .eqInt _, none => false       -- `None == -1` is False
+  | .ltInt k, some n => decide (n < k)
+  | .ltInt _, none => false       -- (`None < -1` would raise TypeError; the code tests `is None` first)
+
+structure SeedShape where
+  /-- `if <absent₁> or <absent₂> …:` no usable seed was given -/
+  absent : List SeedTest
+  /-- in that branch, `if generate_seed_value:` draws a seed from OS entropy (otherwise `return None`) -/
+  absentGenerates : Bool
+  /-- `elif <invalid>: raise ValueError` -/
+  invalid : List SeedTest
+  /-- the tests (conjunction) under which `reset` calls `set_random_seed(seed, …)` at all -/
+  resetGuard : List SeedTest
+  deriving DecidableEq, Repr
+
+/-- what happens to the generators -/
+inductive SeedAct where
+  | keep                    -- left where they are
+  | seedWith (n : Nat)      -- `random.seed(n); np.random.seed(n); th.manual_seed(n)`
+  | fromEntropy             -- seeded from a value nobody controls
+  | raise                   -- ValueError before anything was touched
+  deriving DecidableEq, Repr
+
+def SeedShape.setRandomSeed (sh : SeedShape) (seed : Option Int) (generate : Bool) : SeedAct :=
+  if sh.absent.any (·.eval seed) then (if generate && sh.absentGenerates then .fromEntropy else .keep)
+  else if sh.invalid.any (·.eval seed) then .raise
+  else match seed with
+    | some n => .seedWith n.toNat
+    | none => .fromEntropy      -- `random.seed(None)` seeds from the OS
+
+def SeedShape.resetAct (sh : SeedShape) (seed : Option Int) (generate : Bool) : SeedAct :=
+  if sh.resetGuard.all (·.eval seed) then sh.setRandomSeed seed generate else .keep
+
+/-- The shape the proofs are about (what the source has today; `C03_gen_seed_shape` checks the regenerated table against it):
+`if seed is None or seed == -1: … elif seed < -1: raise`, and in `reset`: `if seed is not None: set_random_seed(seed, …)`. -/
+def codeShape : SeedShape :=
+  { absent := [.isNone, .eqInt (-1)], absentGenerates := true, invalid := [.ltInt (-1)], resetGuard := [.isNotNone] }
+
+/-- Operations as the caller of the gym API writes them. -/
+inductive COp (Act : Type) where
+  | step : Act → COp Act
+  | reset : Option Int → COp Act      -- `env.reset(seed=x)`, `x` ANY Python value of type `Optional[int]`
+  | foreign : Fam → COp Act
+
+/-- Translation into the operations of the process model. `none` = outside the modelled fragment: the call raises
+(`seed < -1`), or seeds from entropy (`generate_seed_value`), and the property says nothing about what follows. -/
+def SeedShape.toOp {Act : Type} (sh : SeedShape) (generate : Bool) : COp Act → Option (Op Act)
+  | .step a => some (.step a)
+  | .foreign f => some (.foreign f)
+  | .reset x =>
+    match sh.resetAct x generate with
+    | .keep => some (.reset none)
+    | .seedWith n => some (.reset (some n))
+    | .fromEntropy => none
+    | .raise => none
+
+/-- the operation list up to the first call outside the modelled fragment -/
+def SeedShape.toOps {Act : Type} (sh : SeedShape) (generate : Bool) : List (COp Act) → List (Op Act)
+  | [] => []
+  | c :: cs =>
+    match sh.toOp generate c with
+    | some o => o :: sh.toOps generate cs
+    | none => []
+
+/-- `reset` as it would be if the game were built BEFORE the generators are re-seeded (`from_config` draws: every
+ProbabilisticAgent derives its generator, every PeriodicAgent its first execution step): the draws of the construction
+come from the inherited generator state. Only used for `C03_build_before_seed_counterexample`. -/
+def doResetLate {ι Cfg σ Act : Type} [DecidableEq ι] (g : Fixed) (ρ : Rho ι) (sim : Sim Cfg σ Act) (sched : Nat → Cfg)
+    (p : Proc σ) (seed : Option Nat) : Proc σ × List (Tok ι) :=
+  let r := interp g (p.rebase.rho ρ) (sim.rebuild (sched (p.episode + 1))) { rng := p.w.rng }
+  ({ p.rebase with episode := p.episode + 1, st := r.1.1, w := { r.2 with rng := resetRng g seed r.2 } },
+   r.1.2.map (Tok.map (p.rebase.rho ρ).uuid))
 
 /-! ## models of the set consumers found by the inventory (executable; the driver exposes them) -/
 
